@@ -150,3 +150,15 @@ func vUF3(name string, a, b, c int64) float64 { return 0 }
 
 // vKnown is a no-op natively: replays run the real code on the witness as is.
 func vKnown(key string, c bool) {}
+
+func vWideEq(hi, lo, t2, t1, t0 uint64) bool {
+	u := func(x uint64) *big.Int { return new(big.Int).SetUint64(x) }
+	lhs := new(big.Int).Add(new(big.Int).Lsh(u(hi), 64), u(lo))
+	rhs := new(big.Int).Add(new(big.Int).Add(new(big.Int).Lsh(u(t2), 64), new(big.Int).Lsh(u(t1), 32)), u(t0))
+	return lhs.Cmp(rhs) == 0
+}
+
+func vMul128Check(a, b, hi, lo uint64) bool {
+	u := func(x uint64) *big.Int { return new(big.Int).SetUint64(x) }
+	return new(big.Int).Mul(u(a), u(b)).Cmp(new(big.Int).Add(new(big.Int).Lsh(u(hi), 64), u(lo))) == 0
+}
